@@ -29,8 +29,9 @@ RULE = ("histories: every sequence up to length L1 over the 9-operation alphabet
         "False) and FileSystemLoader with os.utime-forced mtimes; layered loaders (FileSystemLoader with two search "
         "paths, ChoiceLoader of two DictLoaders) over {get, select, put / delete in layer 1 or layer 2}, where a "
         "put into layer 1 shadows the template loaded from layer 2; histories in which env.auto_reload is switched on / off "
-        "between requests.  get alternates get_template / "
-        "get_or_select_template.  distinct = (loader kind, auto_reload, size, history); non-trivial = a get/select "
+        "between requests.  each get / select rotates through the entry points (get_template, "
+        "get_or_select_template, select_template([name]), tuple of names) and optional arguments (globals=, parent=, str "
+        "subclass as name).  distinct = (loader kind, auto_reload, size, history); non-trivial = a get/select "
         "follows a put or delete of a name that was loaded before.")
 
 NAMES = {1: "n1", 2: "n2", 3: "n3", 4: "n4"}
@@ -156,6 +157,43 @@ class World:
 UPT = {"dict": "V", "fs": "V", "funcV": "V", "funcN": "N", "funcT": "T", "funcF": "F", "fs2": "V", "choice": "V"}
 
 
+class StrSub(str):
+    """a str subclass as template name (same text, same hash / equality)"""
+
+
+def call_get(env, name, k):
+    """every documented way of asking for ONE name, in rotation: entry point, optional arguments, kind of the name value"""
+    k %= 7
+    if k == 0:
+        return env.get_template(name)
+    if k == 1:
+        return env.get_or_select_template(name)
+    if k == 2:
+        return env.get_template(name, globals={"g": k})
+    if k == 3:
+        return env.get_template(name, parent="some/parent")       # default join_path: the name is used unchanged
+    if k == 4:
+        return env.get_template(StrSub(name))
+    if k == 5:
+        return env.select_template([name])
+    return env.get_or_select_template(name, "some/parent", {"h": 2})
+
+
+def call_select(env, names, k):
+    k %= 6
+    if k == 0:
+        return env.select_template(names)
+    if k == 1:
+        return env.get_or_select_template(names)
+    if k == 2:
+        return env.select_template(tuple(names))
+    if k == 3:
+        return env.select_template(names, globals={"g": 1})
+    if k == 4:
+        return env.select_template(names, parent="some/parent")
+    return env.get_or_select_template([StrSub(n) for n in names], None, {"h": 3})
+
+
 def real_run(jinja2, kind, ar, size, ops, fsdir=None):
     """-> (result string in the driver's format, oracle failure or None)"""
     w = World(jinja2, kind, fsdir)
@@ -192,10 +230,9 @@ def real_run(jinja2, kind, ar, size, ops, fsdir=None):
         flip += 1
         try:
             if p[0] == "g":
-                t = env.get_template(NAMES[names[0]]) if flip % 2 else env.get_or_select_template(NAMES[names[0]])
+                t = call_get(env, NAMES[names[0]], flip)
             else:
-                lst = [NAMES[n] for n in names]
-                t = env.select_template(lst) if flip % 2 else env.get_or_select_template(lst)
+                t = call_select(env, [NAMES[n] for n in names], flip)
             text = t.render()
         except jinja2.TemplateNotFound:          # TemplatesNotFound is a subclass
             t, text = None, None
